@@ -29,6 +29,9 @@ TEXTBOOK = {
     "unary-binary": 'grammar g; @left "*"; @left "-"; start = e; e = e "-" e | e "*" e | "-" e | "n";',
     "unary-rule-handle": 'grammar g; @left "*"; @right <e = "-" e>; start = e; e = e "-" e | e "*" e | "-" e | "n";',
     "unary-rule-handle-resolved": 'grammar g; @right <e = "-" e>; @left "*"; @left "-"; start = e; e = e "-" e | e "*" e | "-" e | "n";',
+    "rule-handle-then-terminals": 'grammar cat; @left "*"; @left <e = e e> "x" "("; start = e; e = e e | e "*" e | "x" | "(" e ")";',
+    "rule-handle-between-terminals": 'grammar cat; @left "*"; @left "x" <e = e e> "("; start = e; e = e e | e "*" e | "x" | "(" e ")";',
+    "two-rule-handles-then-terminal": 'grammar g; @left <e = e e> <e = e o e> "x"; @left "(" "+" "-"; start = e; e = e e | e o e | "x" | "(" e ")"; o = "+" | "-";',
     "binary-rule-handle": 'grammar g; @left <e = e "+" e>; start = e; e = e "+" e | "n";',
 }
 
@@ -72,20 +75,25 @@ def gen_grammar(rng):
     nts = ["start", "a", "b", "c", "d", "e"][: rng.randint(1, 5)]
     ts = ['"x"', '"y"', '"z"', '"+"', '"("', '")"'][: rng.randint(2, 6)]
     rules = []
+    handles = []
     for n in nts:
         alts = []
         for _ in range(rng.randint(1, 3)):
             k = rng.randint(0, 4)
             alts.append(" ".join(rng.choice(nts + ts + ts) for _ in range(k)))
         rules.append("%s = %s;" % (n, " | ".join(alts)))
+        handles += ["<%s = %s>" % (n, a_) for a_ in dict.fromkeys(alts)]
     directives = []
     if rng.random() < 0.5:
         pool = list(ts)
+        if rng.random() < 0.5:
+            # rule handles too, anywhere on a line: before, between and after terminals
+            pool += rng.sample(handles, rng.randint(1, min(3, len(handles))))
         rng.shuffle(pool)
         for _ in range(rng.randint(1, 3)):
             if not pool:
                 break
-            k = rng.randint(1, min(2, len(pool)))
+            k = rng.randint(1, min(3 if len(pool) > len(ts) else 2, len(pool)))
             directives.append("%s %s;" % (rng.choice(["@left", "@right", "@none"]), " ".join(pool.pop() for _ in range(k))))
     return "grammar g; " + " ".join(directives) + " " + " ".join(rules)
 
